@@ -101,3 +101,238 @@ META_CORE = ["author: me", "Key: v", "    more", "", "---", "...", "plain text",
 def rand_meta_lines(rng):
     n = rng.randint(0, 8)
     return [rng.choice(META_ALPHA) if rng.random() < 0.8 else rand_line(rng) for _ in range(n)]
+
+
+# ---------------------------------------------------------------- end-to-end: projects with tracer words
+class DocGen:
+    """Documentation bodies with a unique tracer word sequence per entity.
+    Tracer words are `tw<entity>a<n>`; metadata values are `mv<entity>a<n>` (must never be shown)."""
+
+    META_KEYS = ["author", "version", "since", "category", "license", "date"]
+
+    def __init__(self, rng, knobs=None):
+        self.rng = rng
+        self.eid = 0
+        self.knobs = knobs or {}
+
+    def new_entity(self):
+        self.eid += 1
+        self.n = 0
+        self.mn = 0
+        return self.eid
+
+    def w(self, k=None):
+        out = []
+        for _ in range(k or self.rng.randint(1, 4)):
+            self.n += 1
+            out.append(f"tw{self.eid}a{self.n}")
+        return " ".join(out)
+
+    def mv(self):
+        self.mn += 1
+        return f"mv{self.eid}a{self.mn}"
+
+    def box(self, last):
+        rng = self.rng
+        ty = rng.choice(TYPES)
+        tyw = rng.choice([ty, ty, ty, ty.upper(), ty.capitalize()])
+        lines = ["@" + tyw + rng.choice(["", "", " " + self.w()])]
+        for _ in range(rng.randint(0, 3)):
+            k = rng.random()
+            if k < 0.6:
+                lines.append(self.w())
+            elif k < 0.8:
+                lines.append("- " + self.w())
+            else:
+                lines += ["", self.w()] if rng.random() < 0.5 else [self.w()]
+        term = rng.choice(["end", "end", "endpre", "endpost", "blank", "next", "eof" if last else "next"])
+        endw = "@end" + rng.choice([ty, ty, ty.upper()])
+        if term == "end":
+            lines.append(endw)
+        elif term == "endpre":
+            lines.append(self.w(2) + " " + endw)
+        elif term == "endpost":
+            lines.append(endw + " " + self.w(2))
+        elif term == "blank":
+            lines.append("")
+        return lines, term
+
+    def body(self):
+        """(lines, kinds) — kinds lists the block kinds used (for the evidence distribution)."""
+        rng = self.rng
+        nblocks = rng.choice([1, 1, 2, 3, 4])
+        lines, kinds = [], []
+        prev_open = False          # previous block was a box without terminator
+        for b in range(nblocks):
+            last = b == nblocks - 1
+            k = rng.random()
+            if k < 0.45:
+                bl, term = self.box(last)
+                lines += bl
+                kinds.append("box:" + term)
+                prev_open = term in ("next", "eof")
+                if term in ("end", "endpre", "endpost") and rng.random() < 0.6:
+                    lines.append("")
+                continue
+            if prev_open and rng.random() < 0.5:
+                lines.append("")
+            prev_open = False
+            if k < 0.65:
+                lines += [self.w() for _ in range(rng.randint(1, 3))]
+                kinds.append("para")
+            elif k < 0.75:
+                mark = rng.choice(["- ", "* ", "+ "])
+                lines += [""] + [mark + self.w() for _ in range(rng.randint(1, 3))]
+                kinds.append("bullets")
+            elif k < 0.83:
+                lines += [""] + [f"{i + 1}. " + self.w() for i in range(rng.randint(1, 3))]
+                kinds.append("numbered")
+            elif k < 0.92:
+                fence = rng.choice(["```", "~~~"])
+                lines += ["", fence] + [self.w() for _ in range(rng.randint(1, 2))] + [fence]
+                kinds.append("fenced")
+            elif k < 0.96:
+                lines += [""] + ["    " + self.w() for _ in range(rng.randint(1, 2))]
+                kinds.append("indented-code")
+            else:
+                ty = rng.choice(TYPES)
+                lines += ["", "- " + self.w(), "    @" + ty + " " + self.w(1), "    " + self.w(), "    @end" + ty,
+                          "- " + self.w(1)]
+                kinds.append("box-in-list")
+            lines.append("")
+        while lines and lines[-1] == "":
+            lines.pop()
+        return lines, kinds
+
+    def meta_header(self, leaf):
+        """(header lines, expected {key: value}); the header is closed by an empty doc line or runs
+        directly into the body (whose first line is never a keyword/continuation line)"""
+        rng = self.rng
+        if rng.random() < 0.55:
+            return [], {}, False
+        keys = rng.sample(self.META_KEYS, rng.randint(1, 2))
+        lines, exp = [], {}
+        for k in keys:
+            v = self.mv()
+            kk = rng.choice([k, k, k.capitalize(), k.upper()])
+            lines.append(f"{kk}: {v}")
+            exp[k] = v
+        if rng.random() < 0.3:
+            lines.append("deprecated: " + rng.choice(["true", "True"]))
+            exp["deprecated"] = True
+        if leaf and rng.random() < 0.3:
+            lines.append("display: private")
+            exp["display"] = ["private"]
+        blank = rng.random() < 0.7
+        return lines, exp, blank
+
+    def doc(self, leaf=False):
+        """One entity's documentation: dict(lines, words, meta, kinds, region)."""
+        eid = self.new_entity()
+        rng = self.rng
+        region = None
+        special = rng.random()
+        if special < 0.04:
+            # one-line comment with a colon whose first part is no metadata key: shown entirely
+            lines = [self.w(1) + ": " + self.w(2)]
+            return dict(eid=eid, lines=lines, words=self.words_of(lines), meta={}, kinds=["oneline-colon"], region=None)
+        if special < 0.07:
+            # one-line comment that is metadata only
+            v = self.mv()
+            return dict(eid=eid, lines=["author: " + v], words=[], meta={"author": v}, kinds=["oneline-meta"], region=None)
+        hdr, meta, blank = self.meta_header(leaf)
+        body, kinds = self.body()
+        if self.knobs.get("pretext") and rng.random() < 0.5:
+            # recorded defect: text before the start marker on the same line
+            body = [self.w(2) + " @note " + self.w(1)] + body
+            kinds = ["pretext"] + kinds
+            region = "doc-text-before-note-dropped"
+        if hdr:
+            # the body must not start with something that continues the header
+            while body and (body[0] == "" or body[0].startswith("    ")):
+                body = body[1:]
+            if not body:
+                body = [self.w()]
+            lines = hdr + ([""] if blank else []) + body
+            kinds = ["meta" + ("+blank" if blank else "+direct")] + kinds
+        else:
+            while body and body[0] == "":
+                body = body[1:]
+            if not body:
+                body = [self.w()]
+            lines = body
+        return dict(eid=eid, lines=lines, words=self.words_of(body), meta=meta, kinds=kinds, region=region)
+
+    @staticmethod
+    def words_of(lines):
+        import re
+        return re.findall(r"tw\d+a\d+", "\n".join(lines))
+
+
+def render_doc(doc, indent):
+    return "".join(f"{indent}!!{(' ' + l) if l else ''}\n" for l in doc["lines"])
+
+
+def gen_doc_project(rng, knobs=None):
+    """A small project whose entities (modules, variables, types, components, procedures,
+    arguments) carry generated documentation. Returns (files, expected) where expected maps
+    (obj, name, parent name) -> doc record."""
+    g = DocGen(rng, knobs)
+    files, expected = {}, {}
+    for fi in range(rng.choice([1, 1, 2])):
+        mod = f"mod{fi}"
+        src = []
+        d = g.doc()
+        expected[("module", mod, None)] = d
+        src.append(f"module {mod}\n" + render_doc(d, "  ") + "  implicit none\n")
+        for vi in range(rng.randint(0, 2)):
+            name = f"v{fi}x{vi}"
+            d = g.doc(leaf=True)
+            expected[("variable", name, mod)] = d
+            src.append(f"  {rng.choice(['integer', 'real', 'logical'])} :: {name}\n" + render_doc(d, "    "))
+        for ti in range(rng.randint(0, 1)):
+            tname = f"t{fi}x{ti}"
+            d = g.doc()
+            expected[("type", tname, mod)] = d
+            src.append(f"  type :: {tname}\n" + render_doc(d, "    "))
+            for ci in range(rng.randint(1, 2)):
+                cname = f"c{ci}"
+                d = g.doc(leaf=True)
+                expected[("variable", cname, tname)] = d
+                src.append(f"    integer :: {cname}\n" + render_doc(d, "      "))
+            src.append(f"  end type {tname}\n")
+        src.append("contains\n")
+        for pi in range(rng.randint(1, 2)):
+            pname = f"p{fi}x{pi}"
+            isfun = rng.random() < 0.4
+            args = [f"a{k}" for k in range(rng.randint(0, 2))]
+            d = g.doc()
+            expected[("proc", pname, mod)] = d
+            if isfun:
+                src.append(f"  function {pname}({', '.join(args)}) result(res)\n" + render_doc(d, "    "))
+            else:
+                src.append(f"  subroutine {pname}({', '.join(args)})\n" + render_doc(d, "    "))
+            for a in args:
+                d = g.doc(leaf=True)
+                expected[("variable", a, pname)] = d
+                src.append(f"    integer, intent(in) :: {a}\n" + render_doc(d, "      "))
+            if isfun:
+                d = g.doc(leaf=True)
+                expected[("variable", "res", pname)] = d
+                src.append("    integer :: res\n" + render_doc(d, "      ") + "    res = 0\n")
+                src.append(f"  end function {pname}\n")
+            else:
+                src.append(f"  end subroutine {pname}\n")
+        src.append(f"end module {mod}\n")
+        files[f"src/f{fi}.f90"] = "".join(src)
+    return files, expected
+
+
+def gen_error_doc(rng):
+    """A documentation body that must make the markdown step raise (unmatched end marker)."""
+    g = DocGen(rng)
+    g.new_entity()
+    ty, other = rng.sample(TYPES, 2)
+    if rng.random() < 0.5:
+        return [g.w(), "@end" + ty, g.w()], "end-without-start"
+    return ["@" + ty, g.w(), "@end" + other], "type-mismatch"
